@@ -21,6 +21,7 @@ RULE = ('rename: EconSpecs (1-2 zones) x an injective renaming of country codes,
         'Non-trivial: rename - goods or labour code differs from the default with a zero-margin firm or an expectations '
         'household, or >= 4 codes changed; embed - >= 2 zones with taxes and a money market or a federated zone. '
         'Distinct: sha1 of the spec.')
+RULE = RULE + (' Input shapes added after the seeded-change rounds (DESIGN.md section 8): ' + "non-ASCII codes; substring-related currency and sector codes; one period solved by the library's own solver in the rename family; codes passed as equal-but-not-identical strings; mid-declaration cash flows.")
 ASSUMPTIONS = [
     'ConsolidatedGovernment/Treasury tie DEM_GOOD and PRIM_BAL to the literal GOOD without a parameter: in a full country '
     'whose goods code is renamed these two variables are not compared (all others are)',
